@@ -33,6 +33,63 @@ class CRing (R : Type) extends Add R, Mul R, Neg R, Zero R, One R where
   conj_zero : conj (0 : R) = 0
   re_self : ∀ a : R, conj a = a → re a = a
 
+/-- the integers with trivial conjugation: the model of a real element type (used for the concrete counterexamples) -/
+instance : CRing Int where
+  conj := id
+  re := id
+  inv := id
+  mul_comm := Int.mul_comm
+  conj_conj := fun _ => rfl
+  conj_add := fun _ _ => rfl
+  conj_mul := fun _ _ => rfl
+  conj_zero := rfl
+  re_self := fun _ _ => rfl
+
+/-! ### Gaussian integers: the concrete ring with a non-trivial conjugation (driver, counterexamples) -/
+structure GInt where
+  re : Int
+  im : Int
+deriving DecidableEq, Repr, Inhabited
+
+namespace GInt
+instance : Add GInt := ⟨fun a b => ⟨a.re + b.re, a.im + b.im⟩⟩
+instance : Mul GInt := ⟨fun a b => ⟨a.re * b.re - a.im * b.im, a.re * b.im + a.im * b.re⟩⟩
+instance : Neg GInt := ⟨fun a => ⟨-a.re, -a.im⟩⟩
+instance : Zero GInt := ⟨⟨0, 0⟩⟩
+instance : One GInt := ⟨⟨1, 0⟩⟩
+def conj (a : GInt) : GInt := ⟨a.re, -a.im⟩
+
+theorem ext' {a b : GInt} (h1 : a.re = b.re) (h2 : a.im = b.im) : a = b := by
+  cases a; cases b; simp_all
+
+instance : CRing GInt where
+  conj := conj
+  re := fun a => ⟨a.re, 0⟩
+  inv := conj
+  mul_comm := by
+    intro a b; apply ext'
+    · show a.re * b.re - a.im * b.im = b.re * a.re - b.im * a.im; grind
+    · show a.re * b.im + a.im * b.re = b.re * a.im + b.im * a.re; grind
+  conj_conj := by intro a; apply ext' <;> simp [conj]
+  conj_add := by
+    intro a b; apply ext'
+    · show a.re + b.re = a.re + b.re; rfl
+    · show -(a.im + b.im) = -a.im + -b.im; omega
+  conj_mul := by
+    intro a b; apply ext'
+    · show a.re * b.re - a.im * b.im = a.re * b.re - (-a.im) * (-b.im); grind
+    · show -(a.re * b.im + a.im * b.re) = a.re * (-b.im) + (-a.im) * b.re; grind
+  conj_zero := by
+    apply ext'
+    · show (0 : Int) = 0; rfl
+    · show -(0 : Int) = 0; rfl
+  re_self := by
+    intro a h
+    have h2 : -a.im = a.im := congrArg GInt.im h
+    apply ext' <;> simp <;> omega
+end GInt
+
+
 abbrev Mem (R : Type) := Int → R
 
 /-- 2-D operand as the adaptor sees it -/
@@ -188,7 +245,7 @@ def maxI (a b : Int) : Int := if a ≤ b then b else a
     rows instead of max(1, rows): a leading dimension 0 passes when the operand has no rows.  The theorems use the
     reference check (`lenient = false`, which implies the lenient one); the driver uses the lenient one because the
     differential run is against OpenBLAS. -/
-def GemmCall.illegal {R : Type} (g : GemmCall R) (lenient : Bool := false) : Option Nat :=
+def GemmCall.illegalL {R : Type} (g : GemmCall R) (lenient : Bool) : Option Nat :=
   let nrowa := if g.ta = 'N' then g.m else g.k
   let nrowb := if g.tb = 'N' then g.k else g.n
   let lo : Int := if lenient then 0 else 1
@@ -202,13 +259,19 @@ def GemmCall.illegal {R : Type} (g : GemmCall R) (lenient : Bool := false) : Opt
   else if g.ldc < maxI lo g.m then some 13
   else none
 
+/-- the reference check -/
+def GemmCall.illegal {R : Type} (g : GemmCall R) : Option Nat := g.illegalL false
+
 /-- C := alpha op(A) op(B) + beta C on the m×n block (dgemm.f) -/
-def GemmCall.exec {R : Type} [CRing R] (g : GemmCall R) (mem : Mem R) (lenient : Bool := false) : Mem R :=
-  if (g.illegal lenient).isSome then mem
+def GemmCall.execL {R : Type} [CRing R] (g : GemmCall R) (lenient : Bool) (mem : Mem R) : Mem R :=
+  if (g.illegalL lenient).isSome then mem
   else fun addr =>
     match cmIndex g.c g.ldc g.m g.n addr with
     | some (i, j) => g.alpha * sumZ g.k (fun l => opElem g.ta g.a g.lda mem i l * opElem g.tb g.b g.ldb mem l j) + g.beta * mem addr
     | none => mem addr
+
+/-- post-state under the reference parameter check -/
+def GemmCall.exec {R : Type} [CRing R] (g : GemmCall R) (mem : Mem R) : Mem R := g.execL false mem
 
 /-- dgemv.f: INFO = 1,2,3,6,8,11 -/
 def GemvCall.illegal {R : Type} (g : GemvCall R) : Option Nat :=
@@ -367,17 +430,17 @@ def L1Call.execSwap {R : Type} (g : L1Call R) (mem : Mem R) : Mem R :=
 def dotVal {R : Type} [CRing R] (cjx : Bool) (n x incx y incy : Int) (mem : Mem R) : R :=
   sumZ n (fun i => cjIf cjx (mem (x + i * incx)) * mem (y + i * incy))
 
-def Call.illegal {R : Type} (cplx : Bool) (lenient : Bool := false) : Call R → Option Nat
-  | .gemm g => g.illegal lenient
+def Call.illegalL {R : Type} (cplx : Bool) (lenient : Bool) : Call R → Option Nat
+  | .gemm g => g.illegalL lenient
   | .gemv g => g.illegal
   | .syrk g => g.illegal false cplx
   | .herk g => g.illegal true true
   | .trsm g => g.illegal
   | _ => none
 
-def Call.exec {R : Type} [CRing R] [DecidableEq R] (cplx : Bool) (c : Call R) (mem : Mem R) (lenient : Bool := false) : Mem R :=
+def Call.execL {R : Type} [CRing R] [DecidableEq R] (cplx : Bool) (lenient : Bool) (c : Call R) (mem : Mem R) : Mem R :=
   match c with
-  | .gemm g => g.exec mem lenient
+  | .gemm g => g.execL lenient mem
   | .gemv g => g.exec mem
   | .syrk g => g.execSyrk cplx mem
   | .herk g => g.execHerk mem
